@@ -49,12 +49,65 @@ MANIFEST = dict(
     technique="Rocq proof over an executable model + reference specs in Gallina + differential correspondence + spec oracle on Go outputs",
     design="8 C03")
 
-ECO_SYS = {"npm": 4, "cargo": 1, "pypi": 6, "maven": 3}
+ECO_SYS = {"npm": 4, "cargo": 1, "pypi": 6, "maven": 3, "mavenq": 3}
+ECOS = ("npm", "cargo", "pypi", "maven", "mavenq")
+TOOL_ECO = {"mavenq": "maven"}
+
+# Maven versions with a qualifier, attached by '-' (the domain on which deps.dev and Maven's
+# ComparableVersion agree, DESIGN 6.4), a few with the '.Final' spelling
+MVN_SUFFIX = [b"-SNAPSHOT", b"-alpha", b"-alpha-1", b"-beta-2", b"-rc1", b"-RC2", b"-milestone-1", b"-sp", b"-sp-1", b"-foo", b"-final", b".Final"]
+
+
+def mvn_text(rng, ints, allow_below=True):
+    s = b".".join(b"%d" % n for n in ints)
+    if rng.random() < 0.3:
+        suf = rng.choice(MVN_SUFFIX)
+        if not allow_below and not any(ints) and suf not in (b"-sp", b"-sp-1", b"-final", b".Final", b"-foo"):
+            return s                      # candidates are versions >= 0
+        s += suf
+    return s
+
+
+def gen_mavenq(rng):
+    """a Maven requirement and candidates whose versions may carry qualifiers; the syntax tree
+    holds the version TEXTS (kind spec_mavenq)"""
+    ast = ranges.gen_ast(rng, "maven")
+    pv = ranges.probes(rng, "maven", ast, 4)
+    if ast[0] == 0:
+        q = [0, mvn_text(rng, ast[1])]
+        text = q[1]
+    else:
+        rs, parts = [], []
+        for li, lo, hi_i, hi in ast[1]:
+            lo_t = [mvn_text(rng, lo[0])] if lo else []
+            hi_t = [mvn_text(rng, hi[0])] if hi else []
+            if lo and hi and lo[0] == hi[0] and li and hi_i:
+                hi_t = list(lo_t)
+                parts.append(b"[" + lo_t[0] + b"]")
+            else:
+                parts.append((b"[" if li else b"(") + (lo_t[0] if lo_t else b"") + b"," + (hi_t[0] if hi_t else b"") + (b"]" if hi_i else b")"))
+            rs.append([li, lo_t, hi_i, hi_t])
+        q = [1, rs]
+        text = b",".join(parts)
+    cands = []
+    for v in pv:
+        t = mvn_text(rng, v, allow_below=False)
+        if t not in cands:
+            cands.append(t)
+    for r in (q[1] if q[0] == 1 else []):        # the bounds themselves, as written
+        for b in (r[1] + r[3]):
+            if b not in cands and not (b.split(b"-")[0].strip(b"0.") == b"" and b"-" in b):
+                cands.append(b)
+    return q, text, cands
+
+
+
 NAMES = ["Default", "Cargo", "Go", "Maven", "NPM", "NuGet", "PyPI", "RubyGems", "Composer"]
 
 sys.path.insert(0, os.path.join(lib.VERIF, "harness", "ref"))
 
 
+DOT_QUAL = re.compile(rb"\.[A-Za-z]|[A-Za-z]\.\d")
 NPM_CMP = re.compile(rb"(?:[<>=~^]+\s*)?[0-9A-Za-z.*+-]+")
 MVN_GROUP = re.compile(rb"[\[(][^\])]*[\])]")
 
@@ -74,7 +127,7 @@ def alternatives(eco, text):
         return alts
     if eco in ("cargo", "pypi"):
         return [[t.strip() for t in text.split(b",") if t.strip()] or [b"*"]]
-    if eco == "maven":
+    if eco in ("maven", "mavenq"):
         groups = MVN_GROUP.findall(text)
         return [[g] for g in groups] if groups else [[text]]
     raise ValueError(eco)
@@ -85,7 +138,7 @@ BUILDS = [b"+build-5", b"+b.1", b"+21AF26D3----117B344092BD", b"+001", b"+exp.sh
 
 def mk(eco, ast, text, pv, rng=None):
     sysi = ECO_SYS[eco]
-    ptexts = [ranges.print_version(eco, v) for v in pv]
+    ptexts = list(pv) if eco == "mavenq" else [ranges.print_version(eco, v) for v in pv]
     if rng is not None and eco in ("npm", "cargo"):
         # SemVer build metadata ([0-9A-Za-z-] identifiers separated by dots) never changes the
         # answer: the same candidate is asked again with a build tag
@@ -171,14 +224,45 @@ def gen_cases(ctx):
                     continue
                 pv = [q for q in (canon_idents(v) for v in pv) if q is not None]
             cases.append(mk(eco, ast, text, pv, rng))
+    for _ in range(per // 2):
+        q, text, cands = gen_mavenq(rng)
+        cases.append(mk("mavenq", q, text, cands))
     for eco, ast, text, pv in CORPUS:
         cases.append(mk(eco, ast, text, pv))
+    add_witnesses(ctx, cases)
     return cases
+
+
+def add_witnesses(ctx, cases):
+    """the reference specification is asked for a version that satisfies the requirement (a
+    witness of non-emptiness, Spec/*.v); it becomes one more candidate, so that the clause about
+    requirements the reference accepts as non-empty does not depend on the probes"""
+    for eco in ECOS:
+        idx = [i for i, c in enumerate(cases) if c["eco"] == eco]
+        if not idx:
+            continue
+        lines = ctx.model("wit_" + eco, [sx(cases[i]["ast"]) for i in idx])
+        for i, line in zip(idx, lines):
+            w = parse_sx(line)
+            if not isinstance(w, list) or w[0] not in (0, 1):
+                raise lib.BuildError("witness function rejected a generated syntax tree", sx(cases[i]["ast"]) + " -> " + line)
+            c = cases[i]
+            if w[0] == 1:
+                ctx.count("witness:%s:found" % eco)
+                v = w[1]
+                t = bytes(v) if eco == "mavenq" else ranges.print_version(TOOL_ECO.get(eco, eco), v)
+                if t not in c["ptexts"]:
+                    c["pv"] = c["pv"] + [v]
+                    c["ptexts"] = c["ptexts"] + [t]
+                    c["head"][2] = sx(c["ptexts"])
+                    c["keys"].add((0, t))
+            else:
+                ctx.count("witness:%s:none" % eco)
 
 
 def spec_answers(ctx, cases):
     out = [None] * len(cases)
-    for eco in ranges.ECOS:
+    for eco in ECOS:
         idx = [i for i, c in enumerate(cases) if c["eco"] == eco]
         lines = ctx.model("spec_" + eco, [sx([cases[i]["ast"], cases[i]["pv"]]) for i in idx])
         for i, line in zip(idx, lines):
@@ -248,7 +332,7 @@ def confirm_with_tools(ctx, cases, hits, spec):
     verdict = {}
     status = {}
     examples = []
-    for eco in ranges.ECOS:
+    for eco in ECOS:
         idxs = sorted(set(h.idx for h in hits if cases[h.idx]["eco"] == eco))
         allidx = [i for i, c in enumerate(cases) if c["eco"] == eco]
         sample = rng.sample(allidx, min(len(allidx), ctx.scale(150, 3000)))
@@ -256,7 +340,7 @@ def confirm_with_tools(ctx, cases, hits, spec):
         if not want:
             continue
         try:
-            res = validate_specs.check(eco, [(cases[i]["text"], cases[i]["ptexts"]) for i in want])
+            res = validate_specs.check(TOOL_ECO.get(eco, eco), [(cases[i]["text"], cases[i]["ptexts"]) for i in want])
         except Exception as e:
             res = None
             ctx.notes.append("reference tool for %s failed: %s" % (eco, str(e)[:200]))
@@ -268,6 +352,9 @@ def confirm_with_tools(ctx, cases, hits, spec):
         for i, r in zip(want, res):
             if r is None:
                 verdict[i] = None                       # the tool rejects the text
+                if eco == "mavenq":
+                    ctx.count("mavenq:text-outside-the-tool's-grammar")     # a qualifier made a range invalid
+                    continue
                 mism += 1
                 if len(examples) < 6:
                     examples.append("%s: the tool rejects %r" % (eco, cases[i]["text"]))
@@ -576,6 +663,11 @@ def run(ctx):
                 ctx.count("hit-not-confirmed-by-the-tool")
                 continue
         inp = {"ecosystem": c["eco"], "requirement": c["text"], "version": c["ptexts"][h.probe_i]}
+        if c["eco"] == "mavenq" and not h.entry and (DOT_QUAL.search(c["text"]) or DOT_QUAL.search(c["ptexts"][h.probe_i])):
+            # a qualifier introduced by '.' (1.0.0.Final): outside D_mvn, where deps.dev follows the
+            # Maven 3.6 ordering and the installed tool the 3.8 one (DESIGN 6.4, property C02)
+            ctx.count("mavenq:ordering-outside-D_mvn")
+            continue
         if known:
             ctx.known_hits[known] = ctx.known_hits.get(known, 0) + 1
         else:
